@@ -25,6 +25,13 @@ class LowerRescale(RewritePattern):
         if not isinstance(linalg_op := op.parent_op(), linalg.GenericOp):
             return
 
+        # the arithmetic below is done on i32 (i64 for the product): narrower inputs are sign-extended first,
+        # narrower results are truncated at the end, wider types are not handled by this limited lowering
+        in_width = op.input.type.width.data
+        out_width = op.result.type.width.data
+        if in_width > 32 or out_width > 32:
+            return
+
         # create constant ops:
         zp_in = ConstantOp.from_int_and_width(op.input_zp.value.data, builtin.IntegerType(32))
         zp_out = ConstantOp.from_int_and_width(op.output_zp.value.data, builtin.IntegerType(32))
@@ -35,7 +42,12 @@ class LowerRescale(RewritePattern):
         rewriter.insert_op([zp_in, zp_out, shift, mult, min, max], InsertPoint.before(linalg_op))
 
         # create body ops:
-        with_zp_in = SubiOp(op.input, zp_in)
+        new_ops: list[Operation] = []
+        input_i32 = op.input
+        if in_width < 32:
+            new_ops.append(extended_in := ExtSIOp(op.input, builtin.i32))
+            input_i32 = extended_in.result
+        with_zp_in = SubiOp(input_i32, zp_in)
         extended = ExtSIOp(with_zp_in, builtin.i64)
         multed = MuliOp(extended, mult)
         shifted = ShRSIOp(multed, shift)
@@ -43,10 +55,10 @@ class LowerRescale(RewritePattern):
         with_zp_out = AddiOp(trunced, zp_out)
         clamped_max = MinSIOp(with_zp_out, max)
         clamped_min = MaxSIOp(clamped_max, min)
-        trunced_final = TruncIOp(clamped_min, builtin.i8)
-        rewriter.replace_op(
-            op, [with_zp_in, extended, multed, shifted, trunced, with_zp_out, clamped_max, clamped_min, trunced_final]
-        )
+        new_ops += [with_zp_in, extended, multed, shifted, trunced, with_zp_out, clamped_max, clamped_min]
+        if out_width < 32:
+            new_ops.append(TruncIOp(clamped_min, op.result.type))
+        rewriter.replace_op(op, new_ops)
 
 
 class LowerLinalgBody(RewritePattern):
